@@ -1470,6 +1470,21 @@ func (sc *serverConn) sendData(strm *Stream) bool {
 			}
 
 			if len(strm.pendingData) == 0 {
+				// The reader said EOF with nothing left to go with it, so
+				// no DATA frame has carried END_STREAM yet. An empty one
+				// needs no window.
+				if strm.pendingEnd {
+					fr := AcquireFrameHeader()
+					fr.SetStream(strm.ID())
+
+					data := AcquireFrame(FrameData).(*Data)
+					data.SetEndStream(true)
+
+					fr.SetBody(data)
+
+					sc.write(fr)
+				}
+
 				break
 			}
 		}
